@@ -423,6 +423,10 @@ pub mod vprims {
         .boxed()
     }
     pub fn ext<'s, I: Kind<'s> + ValueInput<'s>, R: Er<'s, I>>(take: u8, ok: bool, tag: u32) -> BP<'s, I, R> {
+        // every other extension parser relies on the trait's default `check`
+        if (tag as usize + take as usize) % 2 == 1 {
+            return Parser::<'s, I, Val, Ex<R>>::boxed(Ext(ExtD(ExtP { take, ok, tag })));
+        }
         Parser::<'s, I, Val, Ex<R>>::boxed(Ext(ExtP { take, ok, tag }))
     }
     pub fn not<'s, I: Kind<'s> + ValueInput<'s>, R: Er<'s, I>>(p: BP<'s, I, R>) -> BP<'s, I, R> {
@@ -1052,6 +1056,7 @@ impl<'s> Kind<'s> for TTIn<'s> {
 // ---------------------------------------------------------------------------------------------
 // extension parser with separately written parse / check paths
 
+#[derive(Clone)]
 pub struct ExtP {
     pub take: u8,
     pub ok: bool,
@@ -1087,6 +1092,15 @@ impl<'s, I: Kind<'s> + ValueInput<'s>, R: Er<'s, I>> ExtParser<'s, I, Val, Ex<R>
             return Err(R::custom(inp.span_since(&before), format!("C{}", self.tag)));
         }
         Ok(())
+    }
+}
+
+/// the same extension parser WITHOUT its own `check`: the trait's default (`parse` with the output dropped) is on the path
+#[derive(Clone)]
+pub struct ExtD(pub ExtP);
+impl<'s, I: Kind<'s> + ValueInput<'s>, R: Er<'s, I>> ExtParser<'s, I, Val, Ex<R>> for ExtD {
+    fn parse(&self, inp: &mut InputRef<'s, '_, I, Ex<R>>) -> Result<Val, R> {
+        <ExtP as ExtParser<'s, I, Val, Ex<R>>>::parse(&self.0, inp)
     }
 }
 
